@@ -6,6 +6,9 @@ import os
 V = os.path.dirname(os.path.dirname(os.path.abspath(__file__)))
 
 CHECKS = {
+    "C14": dict(cat="model_checking", ref="§3.10, §4 C14", tech="TLA+ Boundary.tla (payload x frame-kind transition system) enumerated by TLC; every path of the state graph rebuilt as a real call chain of JS / Go closures and compared",
+                text="Boundary.tla specifies, for every payload raiser (JS throw of a primitive / object / Error, native panic(Value), panic(GoError), reflect-wrapped functions returning a plain / %w-wrapped / joined Go error, a native re-panicking an *Exception, Interrupt, stack overflow, foreign Go panic) and every frame kind (plain JS, try/catch+rethrow, try/finally, native FunctionCall, reflect-wrapped func with and without error result, ExportTo'd func, ConstructorCall, Proxy trap, getter under Runtime.Try, iterator under ForOf), how the payload crosses the frame and what the frame observes; TLC checks that no crossing changes class or value and that uncatchable / foreign payloads are never observed by script. Every path raise -> cross^(1..3, thorough 4) -> host of the generated graph (16.6k chains at depth 3) is built from real closures, frame i calling frame i+1 through its own calling convention, and executed: the host's error type, identity of Exception.Value(), errors.Is / errors.As reaching the original Go error through GoError, the top stack frame for script throws, and what each catch / finally saw must equal the specification.",
+                note="Trusts TLC and harness/cmd/boundary. A plain Go error handed out by an ExportTo'd function is re-wrapped by the calling native (documented convention), so GoError object identity across that boundary is not required; promise-job and DynamicObject frames are not in the frame menu."),
     "C17": dict(cat="model_checking", ref="§3.8, §4 C17", tech="TLA+ Buf.tla (byte model of one buffer with a family of aliasing views) model-checked by TLC; every transition replayed on a Go-supplied guard-byte-surrounded buffer with a bounds monitor hooked into the raw element access sites",
                 text="Buf.tla models the bytes of one ArrayBuffer, its detached flag and ten views of eight element kinds at different offsets plus a DataView; each action is one method call (element get/set with modular / clamped conversion, fill, copyWithin, reverse, sort, slice, subarray, set from another view of the same buffer and from an array, filter, Array.from, DataView 8/16-bit accessors at every offset and both endiannesses, ArrayBuffer.slice, detach, and twelve operations during which an argument coercion or callback detaches the buffer). TLC checks that no operation changes a byte outside its view's window (Window, DvWindow) and enumerates every behaviour of two operations; each transition is replayed on the real engine over a backing slice supplied by Go inside a slab of guard bytes: result, all bytes as seen through ArrayBuffer.Bytes(), guard bytes and every view's byteOffset/length are compared, and the ptr() bounds monitor (hook commit 3a32012) panics before any access outside the current buffer.",
                 note="Trusts TLC, harness/adaptors/buf.js and the natives. 32- and 64-bit element kinds are covered as byte movers only (TLC integers are 32-bit); float rounding and BigInt conversion are not covered. For detach-during-operation the oracle is 'no access outside the buffer, then throw or treat as empty', not the exact result."),
